@@ -15,7 +15,7 @@ with directives:
   //@ extract <repo path> :: <anchor>   replaced by the transformed text of the real item
   //@   requires: / ensures: / decreases: / recommends:     followed by //@+ continuation lines
   //@   result: NAME                    name of the result binder (default r)
-  //@   loop N:                         clauses inserted after the N-th loop header (1-based)
+  //@   loop N:                         clauses inserted after the N-th loop header (1-based); `loop N?:` = optional (dropped if absent)
   //@   at_start:                       proof text inserted right after the body's opening brace
   //@   before `ANCHOR`:                proof text inserted before the unique occurrence of ANCHOR
   //@                                   (`*ANCHOR` = every occurrence, `#K:ANCHOR` = the K-th occurrence)
@@ -60,7 +60,8 @@ class Extract:
         self.anchor = anchor
         self.result = "r"
         self.clauses = {}  # requires/ensures/decreases/recommends -> text
-        self.loops = {}  # n -> text
+        self.loops = {}
+        self.optional_loops = set()  # n -> text
         self.at_start = []  # lines inserted right after the opening brace of the body
         self.before = []  # (anchor, text)
         self.after = []
@@ -128,7 +129,10 @@ def _parse_unit(text, base_dir=None):
                     ex.result = rest.lstrip(":").strip()
                     cur = None
                 elif k == "loop":
-                    n = int(rest.rstrip(":").strip())
+                    spec = rest.rstrip(":").strip()
+                    n = int(spec.rstrip("?"))
+                    if spec.endswith("?"):  # `loop N?:` -- the contract is dropped (not a lost anchor) when the function has fewer loops
+                        ex.optional_loops.add(n)
                     cur = ("loop", n)
                 elif k == "at_start":
                     cur = ("at_start", None)
@@ -477,6 +481,9 @@ def transform(ex, src):
     if ex.loops:
         lp = _find_loops(bmsk)
         for n, txt in ex.loops.items():
+            if n > len(lp) and n in ex.optional_loops:
+                record["transformations"].append("T2 optional loop contract %d dropped: the function has %d loops" % (n, len(lp)))
+                continue
             if n < 1 or n > len(lp):
                 raise LostAnchor("%s: loop %d not found (%d loops)" % (ex.anchor, n, len(lp)))
             inserts.append((lp[n - 1], "\n" + "".join("        " + l + "\n" for l in txt.rstrip("\n").split("\n")) + "    "))
